@@ -484,16 +484,25 @@ func runConc(r *hx.Runner, f *hx.Flags) {
 		}
 	}
 	if tie > 0 && mon == 0 {
-		lim := 200000
-		for _, progs := range dfsPrograms {
-			dfs(1, []string{"g:0"}, progs, 3, r.Add, &lim)
+		// bounded so that the quick tier stays a quick tier
+		lim, nrand := 30000, 500
+		if r.F.Tier == "thorough" {
+			lim, nrand = 200000, 3000
 		}
-		for i := 0; i < 3000; i++ {
+		for _, progs := range dfsPrograms {
+			l := lim / len(dfsPrograms)
+			dfs(1, []string{"g:0"}, progs, 3, r.Add, &l)
+			r.Flush()
+		}
+		for i := 0; i < nrand; i++ {
 			progs := genProgs(r.Rng)
 			for j := 0; j < 10; j++ {
 				r.Add(genConcCase(r.Rng, r.Rng.Intn(4)-1, nil, progs, j%3))
 			}
+			if i%100 == 99 {
+				r.Flush()
+			}
 		}
-		r.Res.Extra["l3_search"] = "lock-step broke without a monitor hit: widened schedule enumeration (<=3 preemptions) and 30000 more random schedules"
+		r.Res.Extra["l3_search"] = fmt.Sprintf("lock-step broke without a monitor hit: widened schedule enumeration (<=3 preemptions, %d schedules) and %d more random schedules", lim, nrand*10)
 	}
 }
